@@ -13,7 +13,7 @@ use crate::judge::{self, Fail, Kind};
 use crate::oracle::{self, LangCmp};
 use crate::util::*;
 
-pub const UNIT_PROPS: &[&str] = &["C02", "C05", "C06", "C07", "C11", "C13", "C15", "C16"];
+pub const UNIT_PROPS: &[&str] = &["C01", "C02", "C05", "C06", "C07", "C11", "C13", "C15", "C16"];
 
 pub fn is_unit(c: &Case) -> bool {
     c.tcs.len() == 1 && c.tcs[0].starts_with("\u{1}T")
@@ -277,6 +277,25 @@ pub fn judge_unit(prop: &str, term: Option<&Term>, case: &Case) -> Vec<Fail> {
             if regex_ok {
                 if let Err(e) = oracle::compile(&text) {
                     fails.push(Fail::new(Kind::Invalid, format!("printed expression {:?} is rejected by the regex crate: {}", text, e), None));
+                }
+            }
+        }
+        "C01" => {
+            // what union/concatenate build and Display prints must compile and accept every word the operands denote
+            if regex_ok {
+                if let Err(e) = oracle::compile(&text) {
+                    fails.push(Fail::new(Kind::Invalid, format!("printed expression {:?} is rejected by the regex crate: {}", text, e), None));
+                } else if let Some(t) = term {
+                    if !cfg.has(BIT_CI) && is_plain(t) {
+                        if let Some(spec) = spec_of(t) {
+                            match oracle::compare_full(&text, &spec) {
+                                LangCmp::Differ(w, false) => fails.push(Fail::new(Kind::Miss,
+                                    format!("the expression computed by union/concatenate prints as {:?}, which rejects {:?}; the operands denote {:?}", text, w, spec), Some(w))),
+                                LangCmp::Error(e) => fails.push(Fail::new(Kind::Oracle, e, None)),
+                                _ => {}
+                            }
+                        }
+                    }
                 }
             }
         }
